@@ -18,4 +18,14 @@ func H19AddToQuery() {
 	vndReach("h19:addtoquery")
 	vndAssert(len(got) >= 1 && got[0] == string(w), "quoted-word-splits-back-to-the-original")
 	vndAssert(len(got) == 3 && got[1] == "|" && got[2] == "rest:1", "rest-of-the-query-intact")
+	// the way the front end itself goes: the link it builds (label:value added to the
+	// query) comes back as the user's query, is cut at the unquoted "|" and "vs" separators
+	// by parseQueryString, and prefix and part are sent to the storage server as one query
+	kv := "k:" + string(w)
+	prefix, parts := parseQueryString(addToQuery("rest:1", kv))
+	vndAssert(len(parts) == 1 && prefix != "", "separators-inside-a-quoted-value-do-not-cut-the-query")
+	if len(parts) == 1 {
+		words := query.SplitWords(prefix + " " + parts[0])
+		vndAssert(len(words) == 2 && words[0] == kv && words[1] == "rest:1", "storage-query-has-the-original-words")
+	}
 }
